@@ -207,12 +207,17 @@ std::shared_ptr<base::ISampledDimension> DataArrayHDF5::createSampledDimension(n
 
 
 std::shared_ptr<base::IDataFrameDimension> DataArrayHDF5::createDataFrameDimension(ndsize_t index, const nix::DataFrame &df, unsigned col_index) {
+    // checked again by the dimension's constructor, but then the group of the dimension exists already
+    if (!block()->getEntity<base::IDataFrame>(df.id()))
+        throw std::runtime_error("DataFrameDimensionHDF5 DataFrame not found in block!");
     H5Group g = createDimensionGroup(index);
     return make_shared<DataFrameDimensionHDF5>(g, index, file(), block(), df, col_index);
 }
 
 
 std::shared_ptr<base::IDataFrameDimension> DataArrayHDF5::createDataFrameDimension(ndsize_t index, const nix::DataFrame &df) {
+    if (!block()->getEntity<base::IDataFrame>(df.id()))
+        throw std::runtime_error("DataFrameDimensionHDF5 DataFrame not found in block!");
     H5Group g = createDimensionGroup(index);
     return make_shared<DataFrameDimensionHDF5>(g, index, file(), block(), df);
 }
